@@ -4,6 +4,8 @@
   one JSON answer per line on stdout.
 
   expr  ::= {"v":NAME,"idx":[expr…]} | {"c":MAG,"neg":BOOL} | {"n":expr} | {"b":OP,"l":expr,"r":expr}
+          | {"cfg":NAME,"fld":NAME}                      (ReadConfig)
+          | {"call":NAME,"args":[expr…]}                 (Extern; StrideExpr = call "stride" [x, d])
   acc   ::= {"pt":expr} | {"lo":expr,"hi":expr}
   arg   ::= expr | {"win":NAME,"accs":[acc…]}
   stmt  ::= {"k":"pass"} | {"k":"assign"|"reduce","x":NAME,"idx":[expr…],"rhs":expr}
@@ -15,7 +17,7 @@
           | {"k":"call","f":NAME,"args":[arg…]}
   fnarg ::= {"name":NAME,"ty":{"k":"size"|"index"} | {"k":"bool"|"stride","mem":NAME|null}
                               | {"k":"num","ty":TY,"shape":[expr…],"win":BOOL,"mem":NAME|null}}
-  proc  ::= {"name":NAME,"args":[fnarg…],"body":[stmt…]}
+  proc  ::= {"name":NAME,"args":[fnarg…],"preds":[expr…],"body":[stmt…]}
 
   {"op":"print","style":"raw"|"fmt","ind":N,"body":[stmt…]}
       -> {"lines":[TEXT…],          the model's text of the block (`ppBlockS`)
@@ -71,7 +73,7 @@ def has (j : Json) (k : String) : Bool := (j.getObjVal? k).toOption.isSome
 
 def opOfStr (t : String) : Option BinOp := allOps.find? (fun o => opStr o == t)
 
-partial def pExpr (j : Json) : P PExpr := do
+partial def pExpr (j : Json) : P XExpr := do
   if has j "v" then
     pure (.var (← str (← fld j "v")) (← (← arrOf (← fld j "idx")).mapM pExpr))
   else if has j "c" then
@@ -82,6 +84,10 @@ partial def pExpr (j : Json) : P PExpr := do
     match opOfStr (← str (← fld j "b")) with
     | some o => pure (.bin o (← pExpr (← fld j "l")) (← pExpr (← fld j "r")))
     | none => throw "bad operator"
+  else if has j "cfg" then
+    pure (.cfg (← str (← fld j "cfg")) (← str (← fld j "fld")))
+  else if has j "call" then
+    pure (.call (← str (← fld j "call")) (← (← arrOf (← fld j "args")).mapM pExpr))
   else throw s!"bad expr {j.compress}"
 
 def pAcc (j : Json) : P PrintStmt.WAcc := do
@@ -101,7 +107,7 @@ def pTy (j : Json) : P Ty := do
 
 partial def pStmt (j : Json) : P PStmt := do
   let k ← str (← fld j "k")
-  let exprs (key : String) : P (List PExpr) := do (← arrOf (← fld j key)).mapM pExpr
+  let exprs (key : String) : P (List XExpr) := do (← arrOf (← fld j key)).mapM pExpr
   let stmts (key : String) : P (List PStmt) := do (← arrOf (← fld j key)).mapM pStmt
   match k with
   | "pass" => pure .pass
@@ -134,7 +140,8 @@ def pFnTy (j : Json) : P FnTy := do
 def pProc (j : Json) : P PProc := do
   let args ← (← arrOf (← fld j "args")).mapM (fun a => do
     pure (⟨← str (← fld a "name"), ← pFnTy (← fld a "ty")⟩ : PFnArg))
-  pure ⟨← str (← fld j "name"), args, ← (← arrOf (← fld j "body")).mapM pStmt⟩
+  pure ⟨← str (← fld j "name"), args, ← (← arrOf (← fld j "preds")).mapM pExpr,
+    ← (← arrOf (← fld j "body")).mapM pStmt⟩
 
 /-! output -/
 
@@ -143,11 +150,13 @@ def optJ : Option String → Json
   | none => .null
   | some m => .str m
 
-partial def jExpr : PExpr → Json
+partial def jExpr : XExpr → Json
   | .var x idx => Json.mkObj [("v", .str x), ("idx", jarr (idx.map jExpr))]
   | .const n m => Json.mkObj [("c", .str m), ("neg", .bool n)]
   | .neg e => Json.mkObj [("n", jExpr e)]
   | .bin o l r => Json.mkObj [("b", .str (opStr o)), ("l", jExpr l), ("r", jExpr r)]
+  | .cfg c f => Json.mkObj [("cfg", .str c), ("fld", .str f)]
+  | .call f args => Json.mkObj [("call", .str f), ("args", jarr (args.map jExpr))]
 
 def jAcc : PrintStmt.WAcc → Json
   | .pt e => Json.mkObj [("pt", jExpr e)]
@@ -188,6 +197,7 @@ def jFnTy : FnTy → Json
 def jProc (p : PProc) : Json :=
   Json.mkObj [("name", .str p.name),
     ("args", jarr (p.args.map fun a => Json.mkObj [("name", .str a.name), ("ty", jFnTy a.ty)])),
+    ("preds", jarr (p.preds.map jExpr)),
     ("body", jarr (p.body.map jStmt))]
 
 def styleOf (s : String) : P Style :=
